@@ -6,18 +6,18 @@
    Tie to the code: tools/props/C09.py (differential runs of dag.LoadYAML, Parsed.Next and of the real
    scheduler.New + watcher against these models; the property monitor on what the daemon did).
 
-   FULL STATEMENT (false of the pinned code, see the _refuted theorems):
+   FULL STATEMENT:
      for every history of ticks / edits / restarts, a Start for DAG d is issued by the tick of minute m iff one of
      d's start schedules matches m, d is not suspended, not running, and its latest run started before m - so no
      minute is missed and none is started twice; Stop only on running DAGs; Restart at each matching minute; an
      unloadable file never affects the other DAGs.
-   It fails for: a schedule without activation up to the end of year+5 (F9a: Next = zero time, invoked at every
-   tick) and two start schedules matching one minute (F9b: two Starts).  The _partial theorems carry exactly these
-   exclusions as decidable premises.  The third failure found - a file on which the schedule loader panicked
-   killed the daemon (F13a unknown key of the schedule map, F13b zone prefix without a spec) - was repaired in
-   /repo (c2912bd, 519d0a6); the model follows the repaired code and the clauses "no minute is missed" and
-   "an unloadable file never affects the other DAGs" are proved in full (C09_no_miss, C09_bad_file_others,
-   C09_alive). *)
+   Three defects of the pinned tree contradicted it; two classes are repaired in /repo and the model follows the
+   repaired code: F9a (a schedule without activation up to the end of year+5 made Next return the zero time and the
+   entry was invoked at every tick; now skipped) and F13a/F13b (a file on which the schedule loader panicked killed
+   the daemon; now a load error).  For these the clauses are proved in full (C09_due, C09_start_iff, C09_stop_iff,
+   C09_restart_iff, C09_no_miss, C09_bad_file_others, C09_alive).  One remains: two start schedules of one DAG that
+   match the same minute start it twice (F9b) - C09_start_once_partial / C09_no_double_partial carry the exclusion
+   as a decidable premise, C09_start_once_refuted / C09_no_double_refuted are the witnesses. *)
 From Coq Require Import List String ZArith Bool.
 Import ListNotations.
 From BD.Cron Require Import Model Schedule ProofsCal ProofsNext ProofsSched.
@@ -74,33 +74,23 @@ Print Assumptions C09_next_eq_naive.
 (* ------------------------------------------------------------------------------------------ *)
 (* the daemon's test Next(tick - 1s) <= tick                                                   *)
 (* ------------------------------------------------------------------------------------------ *)
-(* full statement: forall sp m, due sp m = true <-> matches sp m = true        (false: C09_due_refuted) *)
-Theorem C09_due_partial : forall sp m, next sp (60 * m - 1) <> None -> (due sp m = true <-> matches sp m = true).
+Theorem C09_due : forall sp m, due sp m = true <-> matches sp m = true.
 Proof. exact due_iff_matches. Qed.
-Print Assumptions C09_due_partial.
+Print Assumptions C09_due.
 
-(* the premise says: the schedule has an activation between m and the horizon *)
-Theorem C09_due_premise : forall sp m, next sp (60 * m - 1) <> None <->
-  exists n, m <= n < horizon sp (60 * m - 1) /\ matches sp n = true.
-Proof. exact next_not_none_iff. Qed.
-Print Assumptions C09_due_premise.
-
-(* one direction holds for every schedule: a matching minute is always due, with Next = the minute itself *)
-Theorem C09_due_of_match : forall sp m, matches sp m = true -> due sp m = true /\ next_time sp (60 * m - 1) = m.
+Theorem C09_due_of_match : forall sp m, matches sp m = true -> due sp m = true /\ next sp (60 * m - 1) = Some m.
 Proof. exact due_of_match. Qed.
 Print Assumptions C09_due_of_match.
 
-(* F9a *)
-Theorem C09_due_refuted : exists sp m, parse "0 0 30 2 *" = POk sp /\ matches sp m = false /\ due sp m = true.
-Proof. exact due_refuted. Qed.
-Print Assumptions C09_due_refuted.
-
-Theorem C09_due_of_none : forall sp m, next sp (60 * m - 1) = None -> zero_minute <= m ->
-  due sp m = true /\ matches sp m = false.
+(* the former F9a: no activation within the horizon - never due *)
+Theorem C09_due_of_none : forall sp m, next sp (60 * m - 1) = None -> due sp m = false /\ matches sp m = false.
 Proof. exact due_of_none. Qed.
 Print Assumptions C09_due_of_none.
 
-Example C09_due_premise_sat : exists sp, parse "*/15 3 * * 1-5" = POk sp /\
+Example C09_due_former_f9a : parse "0 0 30 2 *" = POk feb30 /\ next feb30 (60 * 28589040 - 1) = None /\ due feb30 28589040 = false.
+Proof. exact due_former_f9a. Qed.
+
+Example C09_due_sat : exists sp, parse "*/15 3 * * 1-5" = POk sp /\
     next sp (60 * 28589040 - 1) <> None /\ next sp (60 * 28588500 - 1) = Some 28588500 /\
     matches sp 28588500 = true /\ due sp 28588500 = true /\ due sp 28589040 = false.
 Proof. exact due_premise_sat. Qed.
@@ -121,59 +111,53 @@ Theorem C09_tick_count : forall s m c, NoDup (map fst (tbl s)) ->
 Proof. exact tick_count. Qed.
 Print Assumptions C09_tick_count.
 
-(* full statement: the same without `in_horizon`                              (false: C09_start_iff_refuted) *)
-Theorem C09_start_iff_partial : forall s m, NoDup (map fst (tbl s)) ->
-  forall f e, lookup f (tbl s) = Some e -> in_horizon m (starts e) ->
+Theorem C09_start_iff : forall s m, NoDup (map fst (tbl s)) ->
+  forall f e, lookup f (tbl s) = Some e ->
   count (CStart f) (tick_calls s m) =
   if alive s && negb (mem f (susp s)) && start_guard (status_of s f) m then matching m (starts e) else 0%nat.
 Proof. exact start_iff. Qed.
-Print Assumptions C09_start_iff_partial.
+Print Assumptions C09_start_iff.
 
-Theorem C09_stop_iff_partial : forall s m, NoDup (map fst (tbl s)) ->
-  forall f e, lookup f (tbl s) = Some e -> in_horizon m (stops e) ->
+Theorem C09_stop_iff : forall s m, NoDup (map fst (tbl s)) ->
+  forall f e, lookup f (tbl s) = Some e ->
   count (CStop f) (tick_calls s m) =
   if alive s && negb (mem f (susp s)) && stop_guard (status_of s f) then matching m (stops e) else 0%nat.
 Proof. exact stop_iff. Qed.
-Print Assumptions C09_stop_iff_partial.
+Print Assumptions C09_stop_iff.
 
-Theorem C09_restart_iff_partial : forall s m, NoDup (map fst (tbl s)) ->
-  forall f e, lookup f (tbl s) = Some e -> in_horizon m (restarts e) ->
+Theorem C09_restart_iff : forall s m, NoDup (map fst (tbl s)) ->
+  forall f e, lookup f (tbl s) = Some e ->
   count (CRestart f) (tick_calls s m) = if alive s && negb (mem f (susp s)) then matching m (restarts e) else 0%nat.
 Proof. exact restart_iff. Qed.
-Print Assumptions C09_restart_iff_partial.
-
-(* the premise is decidable *)
-Theorem C09_in_horizon_dec : forall m sps, in_horizonb m sps = true <-> in_horizon m sps.
-Proof. exact in_horizonb_spec. Qed.
-Print Assumptions C09_in_horizon_dec.
+Print Assumptions C09_restart_iff.
 
 (* the property's wording *)
-Theorem C09_start_in_iff_partial : forall s m, NoDup (map fst (tbl s)) ->
-  forall f e, lookup f (tbl s) = Some e -> in_horizon m (starts e) ->
+Theorem C09_start_in_iff : forall s m, NoDup (map fst (tbl s)) ->
+  forall f e, lookup f (tbl s) = Some e ->
   (In (CStart f) (tick_calls s m) <->
    alive s = true /\ mem f (susp s) = false /\ start_guard (status_of s f) m = true /\
    exists sp, In sp (starts e) /\ matches sp m = true).
 Proof. exact start_in_iff. Qed.
-Print Assumptions C09_start_in_iff_partial.
+Print Assumptions C09_start_in_iff.
 
-Theorem C09_stop_in_iff_partial : forall s m, NoDup (map fst (tbl s)) ->
-  forall f e, lookup f (tbl s) = Some e -> in_horizon m (stops e) ->
+Theorem C09_stop_in_iff : forall s m, NoDup (map fst (tbl s)) ->
+  forall f e, lookup f (tbl s) = Some e ->
   (In (CStop f) (tick_calls s m) <->
    alive s = true /\ mem f (susp s) = false /\ stop_guard (status_of s f) = true /\
    exists sp, In sp (stops e) /\ matches sp m = true).
 Proof. exact stop_in_iff. Qed.
-Print Assumptions C09_stop_in_iff_partial.
+Print Assumptions C09_stop_in_iff.
 
-Theorem C09_restart_in_iff_partial : forall s m, NoDup (map fst (tbl s)) ->
-  forall f e, lookup f (tbl s) = Some e -> in_horizon m (restarts e) ->
+Theorem C09_restart_in_iff : forall s m, NoDup (map fst (tbl s)) ->
+  forall f e, lookup f (tbl s) = Some e ->
   (In (CRestart f) (tick_calls s m) <->
    alive s = true /\ mem f (susp s) = false /\ exists sp, In sp (restarts e) /\ matches sp m = true).
 Proof. exact restart_in_iff. Qed.
-Print Assumptions C09_restart_in_iff_partial.
+Print Assumptions C09_restart_in_iff.
 
-(* at most one Start per tick when at most one start schedule matches (excludes F9b) *)
+(* full statement: count (CStart f) (tick_calls s m) <= 1 without the premise   (false: C09_start_once_refuted) *)
 Theorem C09_start_once_partial : forall s m, NoDup (map fst (tbl s)) ->
-  forall f e, lookup f (tbl s) = Some e -> in_horizon m (starts e) ->
+  forall f e, lookup f (tbl s) = Some e ->
   (matching m (starts e) <= 1)%nat -> (count (CStart f) (tick_calls s m) <= 1)%nat.
 Proof. exact start_once. Qed.
 Print Assumptions C09_start_once_partial.
@@ -183,31 +167,25 @@ Theorem C09_unknown_file_silent : forall s m, NoDup (map fst (tbl s)) ->
 Proof. exact unknown_file_silent. Qed.
 Print Assumptions C09_unknown_file_silent.
 
-(* F9a *)
-Theorem C09_start_iff_refuted : exists s m f e,
-  NoDup (map fst (tbl s)) /\ alive s = true /\ lookup f (tbl s) = Some e /\
-  forallb (fun sp => negb (matches sp m)) (starts e) = true /\ In (CStart f) (tick_calls s m).
-Proof. exact start_iff_refuted. Qed.
-Print Assumptions C09_start_iff_refuted.
-
-Theorem C09_restart_iff_refuted : exists d ops,
-  run (init_state d) ops = [[]; [CRestart "d0.yaml"]; [CRestart "d0.yaml"]; [CRestart "d0.yaml"]]%string /\
-  forallb (fun m => negb (matches feb30 m)) [m0; m0 + 1; m0 + 2] = true /\
-  restarts (entry_of (final (init_state d) ops) "d0.yaml"%string) = [feb30].
-Proof. exact restart_iff_refuted. Qed.
-Print Assumptions C09_restart_iff_refuted.
-
 (* F9b *)
 Theorem C09_start_once_refuted : exists s m f e,
-  NoDup (map fst (tbl s)) /\ lookup f (tbl s) = Some e /\ in_horizon m (starts e) /\
-  count (CStart f) (tick_calls s m) = 2%nat.
+  NoDup (map fst (tbl s)) /\ lookup f (tbl s) = Some e /\ count (CStart f) (tick_calls s m) = 2%nat.
 Proof. exact start_once_refuted. Qed.
 Print Assumptions C09_start_once_refuted.
 
 Example C09_start_iff_sat : exists s m f e,
-  NoDup (map fst (tbl s)) /\ lookup f (tbl s) = Some e /\ in_horizon m (starts e) /\
+  NoDup (map fst (tbl s)) /\ lookup f (tbl s) = Some e /\
   count (CStart f) (tick_calls s m) = 1%nat /\ count (CStart f) (tick_calls s (m + 1)) = 0%nat.
 Proof. exact start_iff_sat. Qed.
+
+(* the inputs that used to be invoked at every tick (F9a) *)
+Example C09_former_zero_next :
+  run (init_state d_f9a_start) [ORestart; OTick m0 (60 * m0); OTick (m0 + 1) (60 * m0 + 60)] = [[]; []; []] /\
+  run (init_state d_f9a_restart) [ORestart; OTick m0 (60 * m0); OTick (m0 + 1) (60 * m0 + 60); OTick (m0 + 2) (60 * m0 + 120)]
+    = [[]; []; []; []] /\
+  restarts (entry_of (final (init_state d_f9a_restart) [ORestart]) "d0.yaml"%string) = [feb30] /\
+  next feb30 (60 * m0 - 1) = None.
+Proof. exact former_zero_next_is_silent. Qed.
 
 (* ------------------------------------------------------------------------------------------ *)
 (* every history                                                                               *)
